@@ -18,6 +18,7 @@ import traceback
 import warnings
 
 from harness import common, gendoc
+from harness.common import Sym
 
 PRELUDE_NS = None
 
@@ -194,7 +195,64 @@ def _worker(docs):
     return out
 
 
+
+# ---------------------------------------------------------------------------
+# ELLIPSIS: the standard matcher (model: Model/StdDoctest.v) vs CPython's doctest._ellipsis_match, and the
+# implication std accepts => xdoctest accepts on the implementation (C20_std_ellipsis_accepted)
+# ---------------------------------------------------------------------------
+ELL_ALPHA = 'a. \n'
+
+
+def _ellipsis_worker(args):
+    import doctest as std
+    from xdoctest import checker
+    wants, maxgot = args
+    gots = list(common.iter_strings(ELL_ALPHA, maxgot))
+    reqs = [('forall_str', ELL_ALPHA, maxgot, Sym('bits'), [Sym('std_ellipsis_match'), w, Sym('_')]) for w in wants]
+    ans = common.model_batch(reqs, raw=True)
+    bad_model, bad_impl, n_true = [], [], 0
+    for w, a in zip(wants, ans):
+        for g, bit in zip(gots, a):
+            sv = bool(std._ellipsis_match(w, g))
+            if sv != (bit == '1') and len(bad_model) < 3:
+                bad_model.append((w, g, sv, bit))
+            if sv:
+                n_true += 1
+                if not checker._ellipsis_match(g, w) and len(bad_impl) < 3:
+                    bad_impl.append((w, g))
+    return len(wants) * len(gots), n_true, bad_model, bad_impl
+
+
+def ellipsis_compat(ctx):
+    quick = ctx.tier == 'quick'
+    maxwant, maxgot = (6, 5) if quick else (7, 6)
+    wants = [w for w in common.iter_strings(ELL_ALPHA, maxwant) if '...' in w]
+    rng = ctx.rng('ellipsis')
+    # longer wants with several markers
+    pieces = ['a', 'b', ' ', '\n', '.', 'ab', '..', ' a', 'b ']
+    for _ in range(300 if quick else 5000):
+        k = rng.randint(2, 5)
+        wants.append((rng.choice(['', ' ', '  ']) + '...' + rng.choice(['', ' ', '\n'])).join(rng.choice(pieces) if rng.random() < 0.8 else '' for _ in range(k)))
+    chunks = [(wants[i:i + 40], maxgot) for i in range(0, len(wants), 40)]
+    nv = 0
+    for n, n_true, bad_model, bad_impl in common.pmap(_ellipsis_worker, chunks):
+        ctx.evaluations += n
+        ctx.nontrivial += n_true
+        ctx.count('ellipsis:std-accepts', n_true)
+        for w, g, sv, bit in bad_model:
+            if nv < 4:
+                nv += 1
+                ctx.violation('std-ellipsis-correspondence', {'what': 'doctest._ellipsis_match(want, got) = %s, the model std_ellipsis_match says %s' % (sv, bit),
+                              'want': w, 'got': g, 'theorem_or_correspondence': 'correspondence std_ellipsis_match / CPython doctest._ellipsis_match (feeds C20_std_ellipsis_accepted)'}, False)
+        for w, g in bad_impl:
+            if nv < 8:
+                nv += 1
+                ctx.violation('ellipsis-incompatible', {'what': 'the standard matcher accepts (want, got) but checker._ellipsis_match(got, want) does not',
+                              'want': w, 'got': g, 'theorem_or_correspondence': 'C20_std_ellipsis_accepted on checker._ellipsis_match'}, True)
+
+
 def run(ctx):
+    ellipsis_compat(ctx)
     rng = ctx.rng('std')
     docs = [gen_doctest(rng) for _ in range(2500 if ctx.tier == 'quick' else 40000)]
     chunks = [docs[i:i + 100] for i in range(0, len(docs), 100)]
@@ -234,7 +292,8 @@ def run(ctx):
     ctx.add_rule('%d doctests generated in standard syntax (assignments, prints incl. blank lines, echoed expression values, None results, multi-line literals, loops, defs, '
                  'semicolon lines, comments, raising examples with traceback wants, # doctest: +SKIP / +ELLIPSIS / +NORMALIZE_WHITESPACE / +IGNORE_EXCEPTION_DETAIL, '
                  'triple-quoted strings, bare ... terminators, blank-line and prose separation, indentation) with wants produced by REPL execution; only texts the '
-                 'standard DocTestRunner(optionflags=0) passes count (non-trivial); plus the 5 recorded incompatibility classes' % len(docs))
+                 'standard DocTestRunner(optionflags=0) passes count (non-trivial); plus the 5 recorded incompatibility classes; ELLIPSIS matcher: every want with a marker up to length 6/7 over {a . blank newline} '
+                 'x every got up to length 5/6 + seeded multi-marker wants: CPython doctest._ellipsis_match vs the model of it, and std accepts => checker._ellipsis_match accepts' % len(docs))
     ctx.sample({'doctest': docs[1]})
     ctx.sample({'doctest': docs[-1]})
     ctx.assumptions += ['Guard20: the generator avoids the recorded classes F6 (an expression example that both prints and has a non-None value), F6b (expected SyntaxError at compile time), '
@@ -244,6 +303,17 @@ def run(ctx):
 
 def replay(path):
     d = json.load(open(path))
+    if 'want' in d and 'got' in d:
+        import doctest as std
+        from xdoctest import checker
+        sv = bool(std._ellipsis_match(d['want'], d['got']))
+        mv = common.model_call('std_ellipsis_match', d['want'], d['got'])
+        xv = bool(checker._ellipsis_match(d['got'], d['want']))
+        print('want=%r got=%r std=%s model-of-std=%s xdoctest=%s' % (d['want'], d['got'], sv, mv, xv))
+        if sv != bool(mv) or (sv and not xv):
+            print('VIOLATION property=C20 replay=%s' % path)
+            return 1
+        return 0
     doc = d['doctest']
     ok, strace, att = run_std(doc)
     res, xtrace = run_xd(doc)
